@@ -5,6 +5,7 @@ DSL-built trees and property wrappers.  Oracle: `eval(repr(x))` in a namespace h
 element classes (and the model classes the tree refers to) equals `x`; keywords at their
 constructor default are omitted, every other keyword appears."""
 import random
+import sys
 
 from statham.schema import elements as _elements
 from statham.schema.constants import NotPassed
@@ -21,6 +22,16 @@ N_TREES = {"quick": 1200, "thorough": 40000}
 # strings that stress the printing of string literals: backslashes with both quote kinds, trailing backslash,
 # control characters, quotes only, non-ASCII, line separators
 HOSTILE = ["^[\"'](\\w+)[\"']$", "tail\\", "a\nb", "tab\there", "'", '"', "'\"", "\\d+\\.\\d*", "nul\x00", "é\u2028x", "r'raw'", "\\N{BULLET}", "%s {0} {name}"]
+N_MAGNITUDE = {"quick": 160, "thorough": 4000}
+# keywords that hold a JSON number, per element class (the literal keywords default / const / enum take any JSON value)
+NUMERIC_KW = ("minimum", "maximum", "exclusiveMinimum", "exclusiveMaximum", "multipleOf")
+COUNT_KW = {"String": ("minLength", "maxLength"), "Array": ("minItems", "maxItems"),
+            "Element": ("minLength", "maxLength", "minItems", "maxItems", "minProperties", "maxProperties")}
+# largest decimal exponent / bit length used: the literal must stay printable under CPython's default 4300-digit
+# int<->str limit (beyond it neither json.loads nor eval can produce the literal in the first place)
+MAX_DIGITS, MAX_BITS = 3999, 13000
+FLOAT_MAX_INT = int(sys.float_info.max)          # 2**1024 - 2**971, the largest integer a float holds
+FLOAT_ROUND_LIMIT = 2 ** 1024 - 2 ** 970         # integers from here on do not round to a finite float
 USE_VALUES = [None, True, 0, 1, 2.5, "", "a", "abc", [], [1, "a"], {}, {"a": 1}, {"a": "x", "b": [1]}]
 
 
@@ -49,6 +60,144 @@ def make_hostile(rng, dump):
             return True
     return False
 
+
+def magnitude_number(rng):
+    """(class, number): a JSON number drawn from the magnitude ladder.  JSON integers are unbounded and JSON floats span
+    the whole double range, so the ladder has one rung per representation boundary a printer could depend on: the machine
+    word sizes, the 2**53 exact-float limit, the end of the float range (integers no float can hold), and for floats the
+    ends of the double range and the switch points of repr's exponent notation."""
+    k = rng.random()
+    sign = rng.choice([1, 1, -1])
+    jitter = rng.choice([-1, 0, 0, 1])
+    if k < 0.12:
+        return "int-word-boundary", sign * (2 ** rng.choice([31, 32, 53, 63, 64, 128]) + jitter)
+    if k < 0.27:
+        # beyond 2**64 but still inside the float range
+        if rng.random() < 0.5:
+            return "int-within-float-range", sign * (2 ** rng.randint(65, 1023) + jitter)
+        return "int-within-float-range", sign * (10 ** rng.randint(20, 308) + jitter)
+    if k < 0.42:
+        base = rng.choice([FLOAT_MAX_INT, FLOAT_ROUND_LIMIT, 2 ** 1024, 2 ** 1023, 10 ** 308, 10 ** 309])
+        return "int-at-float-range-end", sign * (base + jitter)
+    if k < 0.67:
+        kind = rng.random()
+        if kind < 0.35:
+            n = 2 ** rng.randint(1025, MAX_BITS) + jitter
+        elif kind < 0.7:
+            n = 10 ** rng.randint(310, MAX_DIGITS) + jitter
+        else:
+            n = rng.getrandbits(rng.randint(1026, MAX_BITS)) | (1 << 1025)
+        return "int-beyond-float-range", sign * n
+    if k < 0.8:
+        x = rng.choice([sys.float_info.max, sys.float_info.min, 5e-324, sys.float_info.epsilon, 1.5e300, 1e308,
+                        2.0 ** 1023, 2.0 ** -1074, 2.0 ** 53, 2.0 ** 53 + 2.0, 2.0 ** 63, 2.0 ** 64])
+        return "float-at-range-end", sign * x
+    # floats with a random mantissa over the whole exponent range, and repr's notation switch points (1e16, 1e-4)
+    if rng.random() < 0.3:
+        x = rng.choice([1e16, 1e15, 9999999999999998.0, 1e-4, 1e-5, 0.0001234, 1e22, 1e23, 123456789012345680.0])
+    else:
+        x = float(f"{rng.uniform(1, 10)!r}e{rng.randint(-323, 308)}")
+    if x != x or x in (float("inf"), float("-inf")):
+        x = sys.float_info.max
+    return "float-any-exponent", sign * x
+
+
+def wrap_literal(rng, x):
+    """(placement, JSON value): the number itself, or the number at some depth inside a list / dict literal"""
+    k = rng.random()
+    if k < 0.4:
+        return "direct", x
+    if k < 0.6:
+        return "in-list", rng.choice([[x], [1, x], [x, "a", None], [0.5, x, x]])
+    if k < 0.8:
+        return "in-dict", rng.choice([{"a": x}, {"a": 1, "big": x}, {"x": x, "y": "s"}])
+    return "in-nested-literal", rng.choice([{"limits": [0.5, x]}, [{"a": x}], [[x]], {"a": {"b": x}}, [1, {"a": [x, None]}]])
+
+
+def plant_in_node(rng, node, stats):
+    """write one magnitude number into a keyword of this dump node; returns False if the class takes no such keyword"""
+    cls, kw = node["cls"], node["kw"]
+    if cls in ("Nothing", "Object"):
+        return False
+    label, x = magnitude_number(rng)
+    choices = ["default"]
+    if cls not in ("AnyOf", "OneOf", "AllOf", "Not"):
+        choices += ["const", "enum"]
+    if cls in ("Integer", "Number", "Element"):
+        choices += list(NUMERIC_KW) * 2
+    if isinstance(x, int):
+        choices += list(COUNT_KW.get(cls, ()))
+    name = rng.choice(choices)
+    if name in ("default", "const", "enum"):
+        place, value = wrap_literal(rng, x)
+        if name == "enum":
+            value = [value] if place == "direct" or rng.random() < 0.5 else [0, value]
+            kw[name] = [core.enc_val(v) for v in value]
+        else:
+            kw[name] = core.enc_val(value)
+        where = f"{name}:{place}"
+    else:
+        if name in NUMERIC_KW:
+            kw[name] = core.enc_num(abs(x) if name == "multipleOf" else x)
+        else:
+            kw[name] = core.enc_num(abs(x))
+        where = "numeric-keyword" if name in NUMERIC_KW else "count-keyword"
+    stats["magnitude:" + label] = stats.get("magnitude:" + label, 0) + 1
+    stats["magnitude-at:" + where] = stats.get("magnitude-at:" + where, 0) + 1
+    return True
+
+
+def plant_magnitude(rng, dump, stats):
+    """put a number from the magnitude ladder into one keyword somewhere in the tree (any depth that the repr shows:
+    the walk does not go below a model class, which prints as its bare name)"""
+    nodes = []
+
+    def walk(d, depth):
+        if isinstance(d, dict):
+            if "cls" in d and isinstance(d.get("kw"), dict):
+                if d["cls"] == "Object":
+                    return
+                nodes.append((d, depth))
+                depth += 1
+            for v in d.values():
+                walk(v, depth)
+        elif isinstance(d, list):
+            for v in d:
+                walk(v, depth)
+    walk(dump, 0)
+    rng.shuffle(nodes)
+    for node, depth in nodes:
+        if plant_in_node(rng, node, stats):
+            key = "magnitude-depth:" + ("top" if depth == 0 else "nested-1" if depth == 1 else "nested-2+")
+            stats[key] = stats.get(key, 0) + 1
+            return True
+    return False
+
+
+def magnitude_tree(rng, stats):
+    """a small tree around one leaf that carries a magnitude number: the leaf alone, as array items, as a property of
+    an element, inside a composition under Not, as additionalProperties"""
+    leaf = {"cls": rng.choice(["Integer", "Number", "Element", "Element", "String", "Array", "Boolean", "AnyOf"]), "kw": {}}
+    if leaf["cls"] == "AnyOf":
+        leaf["elements"] = [{"cls": "Null", "kw": {}}]
+    if leaf["cls"] == "Array":
+        leaf["kw"]["itemsKind"] = "single"
+        leaf["items"] = [{"cls": "String", "kw": {}}]
+    plant_in_node(rng, leaf, stats)
+    shape = rng.choice(["leaf", "array-items", "property", "not-in-anyof", "additional-properties", "tuple-items"])
+    stats["magnitude-shape:" + shape] = stats.get("magnitude-shape:" + shape, 0) + 1
+    if shape == "leaf":
+        return leaf
+    if shape == "array-items":
+        return {"cls": "Array", "kw": {"itemsKind": "single", "minItems": {"i": "1"}}, "items": [leaf]}
+    if shape == "tuple-items":
+        return {"cls": "Element", "kw": {"itemsKind": "tuple"}, "items": [{"cls": "String", "kw": {}}, leaf]}
+    if shape == "property":
+        key = rng.choice([{"name": "n", "source": "n"}, {"name": "n", "source": "n", "required": True}, {"name": "class_", "source": "class"}])
+        return {"cls": "Element", "kw": {"hasProps": True}, "props": [[key, leaf]]}
+    if shape == "additional-properties":
+        return {"cls": "Element", "kw": {}, "addProps": leaf}
+    return {"cls": "AnyOf", "kw": {}, "elements": [{"cls": "Not", "kw": {}, "elements": [leaf]}, {"cls": "Number", "kw": {}}]}
 
 
 def namespace_for(el):
@@ -80,12 +229,17 @@ def expected_kwargs(el):
 
 
 def check_element(drv, el, dump, out, stats, what="element", used=False, unique=True):
-    text = repr(el)
+    try:
+        text = repr(el)
+    except Exception as exc:  # noqa: BLE001 - an element without a repr has no expression that rebuilds it
+        out.note_case({"element": dump}, True)
+        out.failures.append({"case": {"element": dump, "used_before": used}, "what": f"repr(element) raised {type(exc).__name__}: {exc}", "finding": None})
+        return
     case = {"element": dump, "repr": text, "used_before": used}
     out.note_case({"element": dump}, len(text) > 20)
     try:
         real = pyast.canon_expr_text(text)
-    except (SyntaxError, pyast.Unsupported) as exc:
+    except (SyntaxError, ValueError, pyast.Unsupported) as exc:
         out.failures.append({"case": case, "what": f"repr is not an expression of the expected form: {exc}", "finding": None})
         return
     rep = drv.ask({"op": "repr", "elem": dump})
@@ -120,8 +274,11 @@ def check_element(drv, el, dump, out, stats, what="element", used=False, unique=
     stats[what + "-ok"] = stats.get(what + "-ok", 0) + 1
 
 
-def check_property(drv, rng, dg, out, stats):
-    sub = unique_class_names(dg.dump(2))
+def check_property(drv, rng, dg, out, stats, sub=None):
+    if sub is None:
+        sub = unique_class_names(dg.dump(2))
+        if rng.random() < 0.25 and plant_magnitude(rng, sub, stats):
+            stats["magnitude-under-property-wrapper"] = stats.get("magnitude-under-property-wrapper", 0) + 1
     el = dsl.build(sub)
     required = rng.random() < 0.5
     name = rng.choice(["a", "class_", "a_b", "x"])
@@ -135,12 +292,17 @@ def check_property(drv, rng, dg, out, stats):
         source = first
         reused = True
     holder = _elements.Element(properties={name: prop})
-    text = repr(prop)
-    case = {"property": {"name": name, "required": required, "source": source, "reused": reused}, "element": sub, "repr": text}
+    case = {"property": {"name": name, "required": required, "source": source, "reused": reused}, "element": sub}
     out.note_case({"property": case["property"], "element": sub}, True)
     try:
+        text = repr(prop)
+    except Exception as exc:  # noqa: BLE001
+        out.failures.append({"case": case, "what": f"repr(property) raised {type(exc).__name__}: {exc}", "finding": None})
+        return
+    case["repr"] = text
+    try:
         real = pyast.canon_expr_text(text)
-    except (SyntaxError, pyast.Unsupported) as exc:
+    except (SyntaxError, ValueError, pyast.Unsupported) as exc:
         out.failures.append({"case": case, "what": f"property repr is not an expression: {exc}", "finding": None})
         return
     key = {"name": name, "required": required}
@@ -185,7 +347,11 @@ def run(ctx, scale=1.0):
     out.rule = ("element trees built through the DSL from generated dumps (every element class, keyword subsets, JSON literals incl. falsy ones, "
                 "nested elements, tuple/single items, renamed and required properties, dependencies of both forms) and property wrappers "
                 "bound under a name; a third of the trees carry a hostile string (backslashes with both quote kinds, trailing backslash, control "
-                "characters) in a pattern / description / format; half of the trees are used for validation before their repr is taken; "
+                "characters) in a pattern / description / format; a third carry a number from the magnitude ladder (integers at the word "
+                "sizes, at 2**53, at the end of the float range and beyond it up to 3999 digits; floats at both ends of the double range and "
+                "over all exponents) in a numeric / count keyword or in default / const / enum, directly or inside a list / dict literal, at "
+                "any depth of the tree the repr shows; small trees around one such leaf (alone, array items, property, Not inside AnyOf, "
+                "additionalProperties) and property wrappers over them; half of the trees are used for validation before their repr is taken; "
                 "a case is one tree or wrapper; non-trivial = repr longer than 20 characters; distinct by SHA-256")
     stats = {}
     drv = core.Driver()
@@ -198,6 +364,8 @@ def run(ctx, scale=1.0):
             unique_class_names(dump)
             if i % 3 == 1 and make_hostile(rng, dump):
                 stats["hostile-string"] = stats.get("hostile-string", 0) + 1
+            if i % 3 == 2 and plant_magnitude(rng, dump, stats):
+                stats["magnitude-in-random-tree"] = stats.get("magnitude-in-random-tree", 0) + 1
             el = dsl.build(dump)
             if i % 2 == 1:
                 # a used element: validation must leave nothing behind that the rebuilt element lacks
@@ -219,6 +387,18 @@ def run(ctx, scale=1.0):
                         except Exception:  # noqa: BLE001
                             continue
                         check_element(drv, el, core.dump_elem(el), out, stats, what="numeric-literal")
+        # JSON numbers of every magnitude (see magnitude_number) in every keyword that takes one, in small trees and under wrappers
+        for i in range(int(N_MAGNITUDE[ctx["tier"]] * scale)):
+            dump = magnitude_tree(rng, stats)
+            if i % 4 == 3:
+                check_property(drv, rng, dg, out, stats, sub=dump)
+                stats["magnitude-under-property-wrapper"] = stats.get("magnitude-under-property-wrapper", 0) + 1
+                continue
+            el = dsl.build(dump)
+            if i % 4 == 1:
+                for v in rng.sample(USE_VALUES, 3) + [core.NP]:
+                    core.real_call(el, v)
+            check_element(drv, el, core.dump_elem(el), out, stats, what="magnitude-literal", used=(i % 4 == 1))
         # one element per class with each single keyword at a falsy non-default value
         for dump in (
             {"cls": "Element", "kw": {"default": None}}, {"cls": "Element", "kw": {"default": False}}, {"cls": "Element", "kw": {"const": {"i": "0"}}},
@@ -258,7 +438,11 @@ def _replay_case(case):
             else:
                 prop = Property(el, required=p["required"], source=p["source"])
             holder = _elements.Element(properties={p["name"]: prop})
-            back = eval(repr(prop), namespace_for(el))  # noqa: S307
+            try:
+                back = eval(repr(prop), namespace_for(el))  # noqa: S307
+            except Exception as exc:  # noqa: BLE001
+                out.failures.append({"case": case, "what": f"repr(property) / its evaluation raised {type(exc).__name__}: {exc}", "finding": None})
+                return out
             rebuilt = _elements.Element(properties={p["name"]: back})
             if not (rebuilt.properties[p["name"]] == prop and holder == rebuilt):
                 out.failures.append({"case": case, "what": "rebuilt property differs", "finding": None})
